@@ -38,6 +38,9 @@ func checkC13KA(ix *index, add addFn) {
 		case "kacancel":
 			if cancelAt < 0 {
 				cancelAt = r.T
+				if r.S == "deadline" {
+					cancelAt = r.V // announced at setup: the parent context's own deadline
+				}
 			}
 		case "kaping":
 			pings = append(pings, &ping{n: r.N, start: r.T, end: -1, kind: r.S, delay: r.V * 1000})
@@ -106,7 +109,11 @@ func checkC13KA(ix *index, add addFn) {
 			add("ctx", "parent context cancelled but KeepAlive had not returned when the run was judged", nil)
 			return
 		}
-		if ret.T >= cancelAt && (!hasCls(ret.Cls, "canceled") || hasCls(ret.Cls, "pingtimeout")) {
+		wantCls := "canceled"
+		if cfg.KADeadline {
+			wantCls = "deadline"
+		}
+		if ret.T >= cancelAt && (!hasCls(ret.Cls, wantCls) || hasCls(ret.Cls, "pingtimeout")) {
 			add("ctx", fmt.Sprintf("parent context cancelled at t=%dns; KeepAlive returned %s", cancelAt, retStr(ret)), nil)
 		}
 		return
